@@ -463,6 +463,24 @@ func (e *Engine) evalSpecCall(x *SExpr, env *SpecEnv) Value {
 		default:
 			return VTerm{T: e.closed(env.st, s.ID), Typ: boolT}
 		}
+	case "res":
+		// res(Callee_Name[, i[, j]]): result of the i-th contract call of that callee in the function under verification
+		if args[0].Kind != "ident" {
+			unsup("spec: res expects a callee name")
+		}
+		rs := e.callRes[args[0].Val]
+		i := 0
+		if len(args) > 1 {
+			i = atoi(args[1].Val)
+		}
+		if i >= len(rs) {
+			unsup("spec: res(%s,%d): no such call", args[0].Val, i)
+		}
+		r := rs[i]
+		if len(args) > 2 {
+			r = r.(VTuple)[atoi(args[2].Val)]
+		}
+		return r
 	case "hor":
 		v := e.evalSpec(args[0], env)
 		s, ok := v.(VStream)
